@@ -589,6 +589,16 @@ fn cases(tier: Tier) -> Vec<Case> {
         c.bound = c.bound.or(Some(if tier == Tier::Thorough { 5 } else { 3 }));
         c
     }));
+    // ... and with a stream that yields one item and then *ends* (every seventh case; thorough:
+    // every second): the actor ends with the stream, possibly with letters still in its mailbox -
+    // whatever it does handle, it handles in order, once
+    let step = if tier == Tier::Thorough { 2 } else { 7 };
+    let sc = crate::progscene::with_stream_variant_closing(vec![71], || plain_cases(tier));
+    v.extend(sc.into_iter().enumerate().filter(|(i, c)| i % step == 3 % step && !c.desc.contains("Restart") && !c.desc.contains("slow=Some") && !c.desc.contains("SelfNote")).map(|(_, mut c)| {
+        c.desc = c.desc.replacen("fifo", "fifo [stream of one item, then it ends]", 1);
+        c.bound = c.bound.or(Some(if tier == Tier::Thorough { 5 } else { 3 }));
+        c
+    }));
     // ... and (every fourth case; thorough: every second) once more under a configuration that must
     // not matter: a handler timeout nothing comes near, and the recreate strategy
     let nv = crate::progscene::Variant { generous_timeout: true, recreate: true, builder_order: 0 };
